@@ -213,6 +213,39 @@ func (vc *FuncVC) assumeClauses(st *State, env *SpecEnv, cls []*Clause, kind str
 
 func (vc *FuncVC) ghostAssign(st *State, env *SpecEnv, gs []*GhostAssign) {
 	for _, ga := range gs {
+		if ga.SuchThat {
+			l := env.tryLoc(ga.LHS)
+			if l == nil {
+				vc.errs = append(vc.errs, fmt.Sprintf("%s ghost %s: left side is not a location", vc.name, ga.Src))
+				continue
+			}
+			if !strings.Contains(l.Heap, "$") {
+				vc.errs = append(vc.errs, fmt.Sprintf("%s ghost %s: ':|' is only allowed on ghost state", vc.name, ga.Src))
+				continue
+			}
+			// in the predicate, old(e) denotes the value of e just before this ghost step
+			pre := make(map[string]string, len(st.heaps))
+			for k, v := range st.heaps {
+				pre[k] = v
+			}
+			vc.havocLoc(st, l)
+			env.heaps = st.heaps
+			savedOld := env.old
+			env.old = pre
+			t, err := env.Bool(ga.RHS)
+			env.old = savedOld
+			if err != nil {
+				vc.errs = append(vc.errs, fmt.Sprintf("%s ghost %s: %v", vc.name, ga.Src, err))
+				continue
+			}
+			// the chosen value must exist: reachability cover (expected sat) guards against a vacuous choice
+			if st.dry == nil {
+				vc.obls = append(vc.obls, &Obligation{Name: vc.name + "#cover[ghost-choice]", Func: vc.name, Kind: "cover[ghost-choice]", NDecl: len(vc.g.decls),
+					PC: append(append([]string(nil), st.pc...), t), Goal: "false", Cover: true, Info: ga.Src})
+			}
+			st.assume(t)
+			continue
+		}
 		// evaluate all RHS in the state before this assignment
 		rv, err := env.Value(ga.RHS)
 		if err != nil {
@@ -466,7 +499,7 @@ func (vc *FuncVC) explore(st *State, b *ssa.BasicBlock, idx int, prev *ssa.Basic
 				}
 				if obj := x.Object(); obj != nil && x.IsAddr {
 					// address-taken local (captured by a closure): specs name the variable, read through its cell
-					if _, isVar := obj.(*types.Var); isVar {
+					if tv, isVar := obj.(*types.Var); isVar && !tv.IsField() {
 						if v, ok := st.fr.regs[x.X]; ok {
 							if st.fr.localAddr == nil {
 								st.fr.localAddr = map[string]SV{}
@@ -478,7 +511,7 @@ func (vc *FuncVC) explore(st *State, b *ssa.BasicBlock, idx int, prev *ssa.Basic
 					}
 				}
 				if obj := x.Object(); obj != nil && !x.IsAddr {
-					if _, isVar := obj.(*types.Var); isVar {
+					if tv, isVar := obj.(*types.Var); isVar && !tv.IsField() {
 						if v, ok := st.fr.regs[x.X]; ok {
 							st.fr.locals[obj.Name()] = v
 							st.fr.localT[obj.Name()] = x.X.Type()
@@ -903,7 +936,14 @@ func (vc *FuncVC) feasible(st *State) bool {
 		return true
 	}
 	vc.nFeas++
-	o := &Obligation{Name: "feasibility", NDecl: len(vc.g.decls), PC: st.pc, Goal: "false"}
+	// only the quantifier-free part of the path condition is used (weaker, hence still sound for pruning; fast)
+	var qf []string
+	for _, a := range st.pc {
+		if !strings.Contains(a, "(forall ") && !strings.Contains(a, "(exists ") {
+			qf = append(qf, a)
+		}
+	}
+	o := &Obligation{Name: "feasibility", NDecl: len(vc.g.decls), PC: qf, Goal: "false"}
 	f := filepath.Join(os.TempDir(), fmt.Sprintf("govc-feas-%d-%d.smt2", os.Getpid(), vc.nFeas))
 	os.WriteFile(f, []byte(vc.g.smtText(o, false)), 0o644)
 	defer os.Remove(f)
